@@ -24,8 +24,8 @@ MUST_REACH = ["inserted_atoms_checked", "triclinic_worlds", "inserted_atoms_need
 
 def generate(rng, tier):
     spec = replcheck.gen_replace_world(
-        rng, cell_families=["ortho", "tri_pos", "tri_neg", "tri_mixed", "tri_mixed", "tri_rotated"], allow_rotated=True,
-        families=["pair", "collinear", "collinear", "planar", "asymmetric", "c2", "c3", "c6", "td", "chiral", "single"])
+        rng, cell_families=["ortho", "tri_pos", "tri_neg", "tri_mixed", "tri_mixed", "tri_rotated", "tri_upper", "tri_left"], allow_rotated=True, moderate_noise=False,
+        families=["pair", "collinear", "collinear", "planar", "asymmetric", "c2", "c3", "c6", "td", "chiral", "single", "cs", "bent"])
     P = np.array(spec["pattern"]["positions"], float).reshape(-1, 3)
     spec["replace"] = replcheck.gen_replacement(rng, spec["pattern"]["elements"], P,
                                                 mode=rng.choice(["larger", "larger", "disjoint", "equal_subst", "smaller", "larger", "relaxed"]))
